@@ -1,6 +1,6 @@
 """C11 — a multi-document stream is the list of its documents, each on its own (DESIGN §4 C11)."""
 from ..mir import MissingAnchor, norm
-from ..rules import render, writes_in, must_pass, aggregates, bool_switches, last_seg
+from ..rules import render, writes_in, must_pass, aggregates, bool_switches, last_seg, switch_edges
 from .. import proto
 from . import C07
 
@@ -274,9 +274,38 @@ def rule_iter(ctx, fx, config):
                   "only null-like root scalars are skipped", "the iterator consumes a root event that was not tested for null-likeness", config, ctx.where(f))
 
 
+def rule_null_document_tag(ctx, fx, config):
+    """NULL-DOC: a document is skipped as null only if its root scalar is null-like *and* not tagged as a string
+    (`--- !!str null` is the string \"null\" when read on its own)."""
+    n = 0
+    for f in sorted(fx.fns.values(), key=lambda f: f.npath):
+        if not f.file.endswith("src/lib.rs"):
+            continue
+        nl = [(b, t) for b, t in f.calls() if fx.callee(t) == "parse_scalars::scalar_is_nullish"]
+        for b, t in nl:
+            n += 1
+            ctx.saw(f)
+            e = switch_edges(f, t["t"]) if t["t"] is not None else None
+            okt = False
+            if e:
+                # on the null-like edge, before the document is consumed, the tag is compared with SfTag::String
+                region = f.reachable([e[0]])
+                for b2, t2 in f.calls():
+                    if b2 in region and last_seg(fx.callee(t2)) in ("ne", "eq"):
+                        with f.deep():
+                            args = " ".join(render(f.sym_operand(a)) for a in t2["args"])
+                        if "SfTag::String" in args and "tag" in args:
+                            cons = [xb for xb, xt in f.calls() if fx.callee(xt) == proto.NEXT and xb in region]
+                            okt = all(f.dominates(b2, xb) for xb in cons) if cons else True
+            ctx.check(okt, "ITER", "C11:NULL-DOC:%s#%d" % (f.npath.split("::")[-1] if f.kind != "assoc" else f.npath, n), "a null-like root scalar is skipped only when it is not tagged `!!str`",
+                      "%s skips a document whose root scalar is null-like without looking at its tag: `--- !!str null` is dropped from the stream although it is the string \"null\"" % f.npath, config, ctx.where(f, b))
+    ctx.floor("ITER.null-document-guards", n, 2, config)
+
+
 def run(ctx):
     for config in ctx.configs:
         fx = ctx.facts(config)
+        rule_null_document_tag(ctx, fx, config)
         rule_reset(ctx, fx, config)
         rule_scope(ctx, fx, config)
         rule_single(ctx, fx, config)
